@@ -47,8 +47,8 @@ AllowedPrincipals(req, creds) ==
 VARIABLES req, creds, pc, ai, si, lastErr, anon, result, princ
 avars == <<req, creds, pc, ai, si, lastErr, anon, result, princ>>
 
-Alts1 == {<<>>} \cup {<<s>> : s \in Schemes} \cup {<<s, t>> : s \in Schemes, t \in Schemes \ {s}}
-Reqs  == {<<>>} \cup {<<a>> : a \in Alts1} \cup {<<a, b>> : a \in Alts1, b \in Alts1 \ {a}}
+Alts1 == {<<>>} \cup {<<s>> : s \in Schemes} \cup {p \in Schemes \X Schemes : p[1] # p[2]}
+Reqs  == {<<>>} \cup {<<a>> : a \in Alts1} \cup {p \in Alts1 \X Alts1 : p[1] # p[2]}
 
 AInit ==
   /\ req \in Reqs /\ creds \in [Schemes -> CredClasses]
@@ -66,7 +66,8 @@ Alt ==
   /\ IF ai > Len(req)
        THEN /\ pc' = "done"
             /\ result' = IF anon /\ ~lastErr THEN "reached" ELSE "denied"
-            /\ UNCHANGED <<ai, si, anon, princ>>
+            /\ princ' = "none"                       \* `return true, nil, lastError`
+            /\ UNCHANGED <<ai, si, anon>>
        ELSE IF req[ai] = <<>>
          THEN anon' = TRUE /\ ai' = ai + 1 /\ UNCHANGED <<pc, si, result, princ>>
          ELSE pc' = "scheme" /\ si' = 1 /\ princ' = "none" /\ UNCHANGED <<ai, anon, result>>
@@ -85,9 +86,9 @@ Scheme ==
             IF s \in Missing                  \* `if authenticator, ok := ra.Authenticator[scheme]; ok`
               THEN si' = si + 1 /\ UNCHANGED <<pc, ai, lastErr, result, princ>>
             ELSE IF Outcome(creds[s]) = "na"
-              THEN pc' = "alt" /\ ai' = ai + 1 /\ UNCHANGED <<si, lastErr, result, princ>>
+              THEN pc' = "alt" /\ ai' = ai + 1 /\ princ' = "none" /\ UNCHANGED <<si, lastErr, result>>
             ELSE IF Outcome(creds[s]) = "err"
-              THEN pc' = "alt" /\ ai' = ai + 1 /\ lastErr' = TRUE /\ UNCHANGED <<si, result, princ>>
+              THEN pc' = "alt" /\ ai' = ai + 1 /\ lastErr' = TRUE /\ princ' = "none" /\ UNCHANGED <<si, result>>
             ELSE si' = si + 1 /\ princ' = s /\ UNCHANGED <<pc, ai, lastErr, result>>
   /\ UNCHANGED <<req, creds, anon>>
 
